@@ -197,7 +197,8 @@ Definition copy_no_delim (cfg : scfg) (bsz : N) (S : list zseq) (pis : N) (rep :
   : outc (list zseq * N * blockres) :=
   olet r <- nd_loop cfg bsz S pis (add32 pis bsz) {| k_rep := rep; k_pos := pos; k_ip := 0; k_cnt := 0; k_acc := [] |};
   let '(rest, pis', adj, st) := r in
-  if bsz <? adj then Oob 7
+  if g_fixed cfg && (k_ip st <=? bsz) && (bsz - k_ip st <? adj) then Invalid 15      (* "Sequences overrun the source" *)
+  else if bsz <? adj then Oob 7
   else if bsz - adj <? k_ip st then Oob 8                        (* lastLLSize = (U32)(iend - ip) with ip > iend *)
   else
     let lastLL := bsz - adj - k_ip st in
